@@ -245,6 +245,24 @@ def stray_char_sweep():
                     yield {"text": " ".join(tt), "kinds": ["stray-char:" + how], "level": "stray-char", "base": base if how == "spaced" and i % 7 == 0 else None}
 
 
+SWEEP_TOKENS = ['""', "''", '"7"', "'0.5'", '"1e3"', '"x"', "0", "7", "00", "0.0", "0.5", "-", "- 0", "-0", "-0.0", "- 1", "x", "_", "in", "not", "not in", "and", "or", ",",
+                ":", "(", ")", "( )", "( 1 )", "( x )", "{", "}", "{ }", "==", "!=", "<", ">=", "weighted", "weighted 1", "return", "else", "else if", "if", "def",
+                "salt", "splitters", "/**/", "/* */", "//", "// x\n", ";", ".", "..", "\\", "\n", "\t", "\x00"]
+
+
+def stray_token_sweep():
+    """a small token (or a pair) inserted at, or substituted for, every token position of the base texts: an empty string
+    literal as junk, a string where a number belongs, a sign in front of a zero, a comment opener ... the reference decides
+    which results are outside the grammar"""
+    for base in SWEEP_BASES:
+        toks = [t for _, t in refgrammar.lex(base)]
+        for s_ in SWEEP_TOKENS:
+            for i in range(len(toks) + 1):
+                yield {"text": " ".join(toks[:i] + [s_] + toks[i:]), "kinds": ["stray-token:insert"], "level": "stray-token", "base": base if i % 9 == 0 else None}
+                if i < len(toks):
+                    yield {"text": " ".join(toks[:i] + [s_] + toks[i + 1:]), "kinds": ["stray-token:replace"], "level": "stray-token", "base": None}
+
+
 def selftest():
     refgrammar.selftest()
     for t in FIXED:
@@ -257,6 +275,9 @@ def run(ctx, rec):
         if rec.violations:
             return
         runner.direct_run(ctx, rec, "stray-character-sweep", stray_char_sweep(), judge)
+        if rec.violations:
+            return
+        runner.direct_run(ctx, rec, "stray-token-sweep", stray_token_sweep(), judge)
         if rec.violations:
             return
     runner.hyp_run(ctx, rec, "token-mutations", token_cases(), judge, ctx.n(1000, 8000))
